@@ -206,12 +206,17 @@ def run_case(case):
             nw = len(case["progs"])
             scope_base[0] = nw
             scopes.extend(range(nw, nw + n2))
-            sim2 = TS.Sim({"mode": "explicit", "switches": []}, TRACE, model=case["model"], max_steps=20000)
-            cur_sim[0] = sim2
+            # one at a time, twice as many as drawn: each ends before the next starts, so the operating system gets every chance to
+            # hand a dead thread's identifier to a new one (which must not matter)
+            n2 *= 2
+            scopes.extend(range(nw + n2 // 2, nw + n2))
             for w in range(n2):
-                sim2.spawn(worker(w, ["get", "has", "get"]))
-            sim2.run()
-            ok = not sim2.aborting
+                sim2 = TS.Sim({"mode": "explicit", "switches": []}, TRACE, model=case["model"], max_steps=20000)
+                cur_sim[0] = sim2
+                scope_base[0] = nw + w
+                sim2.spawn(worker(0, ["get", "has", "get"]))
+                sim2.run()
+                ok = ok and not sim2.aborting
             bump("probe:second_generation_threads", n2)
     finally:
         patch.restore()
